@@ -224,6 +224,9 @@ class Check:
         self.assumptions = []
         os.makedirs(os.path.join(ROOT, "evidence"), exist_ok=True)
         os.makedirs(os.path.join(ROOT, "evidence", "replay"), exist_ok=True)
+        for f in os.listdir(os.path.join(ROOT, "evidence", "replay")):
+            if f.startswith(prop + "_"):
+                os.remove(os.path.join(ROOT, "evidence", "replay", f))
 
     def replay_path(self, tag):
         return os.path.join(ROOT, "evidence", "replay", "%s_%s.json" % (self.prop, tag))
